@@ -4,6 +4,7 @@ package c20
 
 import (
 	"fmt"
+	"math"
 	"reflect"
 	"sort"
 	"strings"
@@ -32,6 +33,19 @@ func universe(thorough bool) []*item {
 		if vals.IsNaN(s) {
 			specs = append(specs, s)
 		}
+	}
+	// values far apart (a comparator written as a subtraction wraps on these): scalars and arrays whose
+	// first differing element is more than half the type's range away from the other's
+	for _, v := range []int64{math.MinInt32, -2000000000, -1, 0, 1, 2000000000, math.MaxInt32} {
+		specs = append(specs, &vals.Spec{T: vals.TInt, I: v}, &vals.Spec{T: vals.THash, I: v},
+			&vals.Spec{T: vals.TAI32, I32s: []int32{int32(v)}}, &vals.Spec{T: vals.TAI32, I32s: []int32{7, int32(v)}})
+	}
+	for _, v := range []int64{math.MinInt64, -6000000000000000000, -1, 0, 1, 6000000000000000000, math.MaxInt64} {
+		specs = append(specs, &vals.Spec{T: vals.TLong, I: v}, &vals.Spec{T: vals.TDec, I: v},
+			&vals.Spec{T: vals.TAI64, I64s: []int64{v}}, &vals.Spec{T: vals.TAI64, I64s: []int64{7, v}})
+	}
+	for _, f := range []float32{float32(math.Inf(-1)), -math.MaxFloat32, -1, 0, 1, math.MaxFloat32, float32(math.Inf(1))} {
+		specs = append(specs, &vals.Spec{T: vals.TAF32, F32s: []float32{f}}, &vals.Spec{T: vals.TAF32, F32s: []float32{7, f}})
 	}
 	r := []*vals.Spec{{T: vals.TNull}, {T: vals.TDec, I: 1}, {T: vals.TDec, I: 2}, {T: vals.TText, S: "a"}, {T: vals.TBool, B: true}}
 	if thorough {
